@@ -74,6 +74,13 @@ CHECKS = {
    note="Not judged: spellings MIT accepts but the property does not list (on/off, mixed-case booleans, trailing comments, commas in enctype lists, dotless parent-domain keys, des3-cbc-sha1 naming). An UnsupportedDirective notice for v4 blocks counts as loaded when the Config is returned.",
    technique="bounded-exhaustive enumeration of configuration models x layouts and of hostname x mapping-set spaces on the real code against a reference model",
    engine="enum"),
+ "C17": dict(
+   category="model_checking",
+   text="MIC and Wrap tokens built by gokrb5 (SetChecksum/SetCheckSum + Marshal and the NewInitiator* constructors) for the full product etype(6) x payload length 0..300 x flags 0..7 x sequence numbers {0,1,2^32,2^64-1} x key usages {22,23,24,25} must equal, byte for byte, an independent construction (layout from RFC 4121 4.2.6, checksum from the reference crypto); Unmarshal(Marshal(t)) must return the fields for the matching direction and fail for the other. For payload lengths {0,1,16,17,300} x flags {0,1,4,7}: every single-bit flip and every truncation of the marshalled token, appended bytes, another key, other usages, and every bit of flags / sequence number / payload / checksum changed after the checksum was set must make Unmarshal fail or Verify return false.",
+   design="DESIGN.md 2/C17",
+   note="Not judged: bits of the Wrap token's RRC field (excluded from the checksum by RFC 4121 and not listed by the property). Payload and key bytes seeded.",
+   technique="bounded-exhaustive enumeration of the token parameter space and of single-deviation neighbourhoods on the real code against a reference construction",
+   engine="enum"),
 }
 
 TODO_REASON = "check not yet built in this revision of /verif (work in progress; see DESIGN.md section 2 for the planned bounded-exhaustive exploration)"
